@@ -189,3 +189,129 @@ Proof.
   split; [|vm_compute; reflexivity].
   unfold free. constructor; [cbn; lia|]. constructor; [cbn; lia|]. constructor; [cbn; lia|]. constructor.
 Qed.
+
+(* ================================================================== second deepening pass *)
+
+(* per-area maximality.  A position is BLOCKED when it lies inside some gene shrunk by the padding on both sides
+   (blocked -> not free, Proofs.blocked_not_free).  For EVERY gene list whose genes are longer than twice the
+   padding, every area (before the length filter) begins at the range start or just after a blocked position and
+   ends at the range end or on a blocked position: it cannot be extended on either side. *)
+Theorem C15_intergenic_maximal : forall start end_ genes padding a,
+  long_genes padding genes -> In a (raw_areas start end_ genes padding) ->
+  lclosed start padding genes (fst a) /\ rclosed end_ padding genes (snd a).
+Proof. exact raw_areas_maximal. Qed.
+Print Assumptions C15_intergenic_maximal.
+
+(* C15_intergenic at full strength under that guard: for genes ordered by start and longer than twice the padding,
+   the non-empty areas are EXACTLY the maximal free runs of the searched range (all positions free, not
+   extendable); with C15_intergenic_filter: the reported areas are those of at least the minimum length *)
+Theorem C15_intergenic : forall start end_ genes padding a b,
+  0 <= padding -> starts_sorted genes -> long_genes padding genes -> a < b ->
+  (In (a, b) (raw_areas start end_ genes padding) <-> free_run start end_ padding genes a b).
+Proof. exact raw_areas_exact. Qed.
+Print Assumptions C15_intergenic.
+
+(* without the guard maximality is false - already for a gene of EXACTLY twice the padding (so the guard
+   "at least 2*padding" is not enough, it must be "longer than"): gene [10,30), padding 10, range [0,100): the area
+   (0,20) is reported although position 20 is free and inside the range *)
+Theorem C15_intergenic_maximal_refuted : exists start end_ genes padding a,
+  0 <= padding /\ starts_sorted genes /\ Forall (fun g => 2 * padding <= snd g - fst g) genes /\
+  In a (raw_areas start end_ genes padding) /\ fst a < snd a /\ snd a < end_ /\ free padding genes (snd a).
+Proof. exact raw_areas_maximal_refuted. Qed.
+Print Assumptions C15_intergenic_maximal_refuted.
+
+Example C15_intergenic_nonvacuous2 :
+  long_genes 10 [(0, 110); (50, 105); (200, 300)] /\ free_run 0 400 10 [(0, 110); (50, 105); (200, 300)] 100 210.
+Proof.
+  split; [repeat (constructor; [cbn; lia|]); constructor|].
+  apply raw_areas_exact; try lia.
+  - cbn [starts_sorted]. repeat split; repeat (constructor; [cbn [fst]; lia|]); constructor.
+  - repeat (constructor; [cbn; lia|]); constructor.
+  - vm_compute. right. left. reflexivity.
+Qed.
+
+(* the record positions (in transcription order) of the location scan_orfs computes for a window stretch are the
+   positions the stretch occupies on the ring: the comparison the run-time specification Model.loc_is_orf makes *)
+Theorem C15_coordinates_positions : forall direction offset n N s e,
+  (direction = 1 \/ direction = -1) -> 0 < N -> s <= e -> e - s + 1 <= N ->
+  positions (orf_location direction offset n (Some N) (s, e)) =
+  expected_positions direction offset n (Some N) (s, e).
+Proof. exact positions_orf_location. Qed.
+Print Assumptions C15_coordinates_positions.
+
+(* every area find_all_orfs scans - whole record, one-part area, origin-spanning area incl. the window joined over
+   the origin - is a window of the record not longer than it, shares at most max_overlap positions with EVERY gene
+   of the record and lies inside the searched part; under the decidable guard Model.gaps_guard (well-formed
+   input, the look-up helper misses no gene overlapping an area part [else class FC15a], no gene reaches into
+   both parts of an origin-spanning area [else class FC15b]) *)
+Theorem C15_gaps_areas : forall N cds area ml ov areas,
+  gaps_guard N cds area ml ov = true -> intergenic_for N cds area ml ov = Ok areas ->
+  Forall (area_ok N cds area ov) areas.
+Proof. exact intergenic_for_ok. Qed.
+Print Assumptions C15_gaps_areas.
+
+(* C15_gaps: every feature returned by find_all_orfs lies inside ONE of the intergenic areas, shares at most
+   max_overlap positions with every gene of the record, and lies inside the searched part of the record *)
+Theorem C15_gaps : forall g cds area ml ov feats f,
+  gaps_guard (zlen g) cds area ml ov = true -> find_all_orfs g cds area ml ov = Ok feats -> In f feats ->
+  (exists areas a, intergenic_for (zlen g) cds area ml ov = Ok areas /\ In a areas /\
+                   forall x, In x (positions (floc f)) -> In x (area_positions (zlen g) a)) /\
+  (forall c, In c cds -> shared (floc f) c <= ov) /\
+  (forall x, In x (positions (floc f)) -> in_searched (zlen g) area x = true).
+Proof. exact find_all_orfs_gaps. Qed.
+Print Assumptions C15_gaps.
+
+(* the translation clause, ACGT/acgt genomes: the stored translation of every new feature is the protein of the
+   text its location extracts to (location.extract, C15_coordinates): the codons before the final stop codon
+   translated one by one with the standard table, first residue forced to M *)
+Theorem C15_translation : forall g cds area ml ov feats f,
+  gaps_guard (zlen g) cds area ml ov = true -> acgt g ->
+  find_all_orfs g cds area ml ov = Ok feats -> In f feats ->
+  ftrans f = orf_protein (extract g (floc f)).
+Proof. exact find_all_orfs_translation. Qed.
+Print Assumptions C15_translation.
+
+(* hence the boolean specification the check evaluates on EVERY find_all_orfs output of the implementation
+   (Model.feature_ok via run id 12) holds for the model's output whenever the guard does *)
+Theorem C15_gaps_spec_ok : forall g cds area ml ov feats,
+  gaps_guard (zlen g) cds area ml ov = true -> forallb acgtb g = true ->
+  find_all_orfs g cds area ml ov = Ok feats ->
+  forallb (feature_ok g cds area ov) feats = true.
+Proof. exact find_all_orfs_spec_ok. Qed.
+Print Assumptions C15_gaps_spec_ok.
+
+(* the guard cannot be dropped: the two recorded findings as statements about the (faithful) model *)
+Theorem C15_gaps_refuted_FC15a : exists g cds area ml ov feats f c,
+  gaps_wf (zlen g) cds (Some area) ml ov = true /\ forallb acgtb g = true /\ gaps_class cds (Some area) = 1 /\
+  find_all_orfs g cds (Some area) ml ov = Ok feats /\ In f feats /\ In c cds /\ ov < shared (floc f) c.
+Proof. exact gaps_refuted_helper. Qed.
+Print Assumptions C15_gaps_refuted_FC15a.
+
+Theorem C15_gaps_refuted_FC15b : exists g cds area ml ov feats f c,
+  gaps_wf (zlen g) cds (Some area) ml ov = true /\ forallb acgtb g = true /\ gaps_class cds (Some area) = 2 /\
+  find_all_orfs g cds (Some area) ml ov = Ok feats /\ In f feats /\ In c cds /\ ov < shared (floc f) c.
+Proof. exact gaps_refuted_origin. Qed.
+Print Assumptions C15_gaps_refuted_FC15b.
+
+(* non-vacuity: the guard holds and a feature is returned - inner area; origin-spanning area with the ORF found in
+   the window joined over the origin; whole record *)
+Example C15_gaps_nonvacuous_inner :
+  let g := [67; 67; 67; 67; 67; 67; 67; 67; 67; 67; 67; 67; 67; 67; 67; 67; 67; 67; 67; 67; 67; 67; 67; 67; 67; 67; 67; 67; 67; 67; 67; 67; 67; 65; 84; 71; 65; 65; 65; 84; 65; 65; 67; 67; 67; 67; 67; 67; 67; 67; 67; 67; 67; 67; 67; 67; 67; 67; 67; 67] in
+  gaps_guard (zlen g) [[mkPart 5 32 1]] (Some [mkPart 20 60 1]) 5 2 = true /\ forallb acgtb g = true /\
+  exists f, find_all_orfs g [[mkPart 5 32 1]] (Some [mkPart 20 60 1]) 5 2 = Ok [f] /\
+            floc f = [mkPart 33 42 1] /\ ftrans f = [77; 75].
+Proof. cbn zeta. split; [vm_compute; reflexivity|]. split; [vm_compute; reflexivity|]. eexists. vm_compute. repeat split. Qed.
+
+Example C15_gaps_nonvacuous_origin :
+  let g := [84; 65; 71; 84; 67; 71; 84; 71; 84; 71; 67; 84; 71; 65; 67; 84; 84; 71; 65; 65; 84; 84; 84; 67; 67; 71; 84; 67; 71; 71; 84; 71; 67; 67; 65; 84; 71; 84; 65; 84; 71; 67; 65; 84; 67; 71; 84] in
+  gaps_guard (zlen g) [[mkPart 10 20 1]] (Some [mkPart 26 47 1; mkPart 0 6 1]) 5 10 = true /\ forallb acgtb g = true /\
+  exists f, find_all_orfs g [[mkPart 10 20 1]] (Some [mkPart 26 47 1; mkPart 0 6 1]) 5 10 = Ok [f] /\
+            floc f = [mkPart 29 47 1; mkPart 0 3 1] /\ ftrans f = [77; 80; 67; 77; 72; 82].
+Proof. cbn zeta. split; [vm_compute; reflexivity|]. split; [vm_compute; reflexivity|]. eexists. vm_compute. repeat split. Qed.
+
+Example C15_gaps_nonvacuous_record :
+  let g := [84; 65; 71; 84; 67; 71; 84; 71; 84; 71; 67; 84; 71; 65; 67; 84; 84; 71; 65; 65; 84; 84; 84; 67; 67; 71; 84; 67; 71; 71; 84; 71; 67; 67; 65; 84; 71; 84; 65; 84; 71; 67; 65; 84; 67; 71; 84] in
+  gaps_guard (zlen g) [[mkPart 10 20 1]] None 5 10 = true /\
+  exists f1 f2, find_all_orfs g [[mkPart 10 20 1]] None 5 10 = Ok [f1; f2] /\
+                floc f1 = [mkPart 5 14 1] /\ floc f2 = [mkPart 7 19 1].
+Proof. cbn zeta. split; [vm_compute; reflexivity|]. eexists. eexists. vm_compute. repeat split. Qed.
